@@ -88,7 +88,7 @@ func (comp) Gen(prop string, rng *rand.Rand, tier string) *core.History {
 	cfg := core.Pick(rng, configs)
 	S, N := cfg[0], cfg[1]
 	nkeys := 6 + rng.Intn(7)
-	alpha := chooseAlphabet(rng, nkeys, N)
+	alpha := core.WithLongKeys(rng, chooseAlphabet(rng, nkeys, N), 12)
 	hostile := prop == "C20" && core.Chance(rng, 1, 20)
 	if hostile {
 		alpha[rng.Intn(len(alpha))] = []byte{}
@@ -102,14 +102,14 @@ func (comp) Gen(prop string, rng *rand.Rand, tier string) *core.History {
 		}
 		return core.Pick(rng, alpha)
 	}
-	values := [][]byte{{1}, {2}, {3}, {}, {0xaa, 0xbb}, core.NilValue} // incl. the untyped nil (the cache used as a set)
+	values := [][]byte{{1}, {2}, {3}, {}, {0xaa, 0xbb}, core.NilValue, core.LongValue()} // incl. the untyped nil (the cache used as a set)
 	ids := [][]byte{[]byte("h1"), []byte("h2"), []byte("h3")}
 	tag := uint64(0)
 	if core.Chance(rng, 1, 2) {
 		tag++
 		h.Add(opRegister, "register", core.B(ids[0]), core.N(tag))
 	}
-	nops := 20 + rng.Intn(41)
+	nops := core.LongHistory(rng, 20+rng.Intn(41))
 	for i := 0; i < nops; i++ {
 		r := rng.Intn(100)
 		switch {
@@ -201,7 +201,7 @@ type recorder struct {
 func encCall(id []byte, tag uint64, key []byte, val []byte) []byte {
 	out := []byte{byte(len(id))}
 	out = append(out, id...)
-	out = append(out, byte(tag), byte(len(key)))
+	out = append(out, byte(tag), byte(len(key)>>8), byte(len(key))) // two length bytes: keys of several hundred bytes are generated
 	out = append(out, key...)
 	out = append(out, val...)
 	return out
